@@ -158,6 +158,12 @@ def judge_read(stored, q, got, count, viols, backend):
             viols.append(("read-returns-changed-data", f"{where} id={i}"))
         ok_s = gs == s or (ws is not None and s < ws + TAU and abs(gs - max(s, ws)) <= TAU)
         ok_e = ge == e or (we is not None and e > we - TAU and abs(ge - min(e, we)) <= TAU)
+        if backend == "peewee":
+            # "on the one backend that clips, each returned event is the stored event cut to the window": there an event
+            # that reaches out of the window by more than the edge tolerance must come back cut, on whichever side a
+            # bound was given
+            ok_s = ok_s and (ws is None or s >= ws - TAU or abs(gs - ws) <= TAU)
+            ok_e = ok_e and (we is None or e <= we + TAU or abs(ge - we) <= TAU)
         if not (ok_s and ok_e):
             viols.append(("returned-event-is-not-the-stored-event-cut-to-the-window",
                           f"{where} stored=({s},{e}) returned=({gs},{ge})"))
